@@ -8,23 +8,27 @@
    else drops it).  A queue step delivers ANY pending id (every delivery order), runs the whole reconcile, applies its
    effects and enqueues what the watchers map each write to.  The model is the CURRENT code: the repairs of the lost
    wake-ups F-02a (dead_prev), F-02b (initfail_successor), F-02e (sync_wakeup) and of the wedged target F-21 - /repo
-   commits ee3b808, 39c8330, cb11c37, 6c28fbb - are part of Model/Proto2.v and of [wakes].
+   commits ee3b808, 39c8330, cb11c37, 6c28fbb - and of the SERIALIZABLE gates F-02d - eabfc1f, the transaction watcher
+   also names the successors of the transaction on each of its targets - are part of Model/Proto2.v and of [wakes].
 
    How the theorems decide the property.
-   The property text is still FALSE for the current code, in two ways, each a theorem about the executable instance
-   (evaluated delivery orders; open findings in findings/C09.jsonl):
-     C09_lost_wakeup_serializable_gate_refuted    idle, every target connected, and a transaction is parked for ever at a
-                                                  SERIALIZABLE gate that has opened (F-02d; reproduced on the real controllers
-                                                  with their real watchers and queues by harness/cmd/c09)
-     C09_requeue_cycle_refuted                    every target connected, a transaction not final, and everything that is
-                                                  pending is a pair of proposals (a COMMITTED one whose apply phase was not
-                                                  started - its transaction is parked at such a gate - and its successor in
-                                                  APPLYING) that, whatever the oracle, do nothing but re-queue each other: no
-                                                  delivery order ever empties the queue or changes the world (F-C09-22; the
-                                                  mutual re-queueing is observed on the real reconcilers by the p2 harness)
+   The property text is still FALSE for the current code: one lost wake-up family is left (found by the model search
+   after the SERIALIZABLE gates were repaired; open finding F-C09-23 with a tested repair fixes/C09-4.patch), shown by
+   two theorems about the executable instance (evaluated delivery orders):
+     C09_lost_wakeup_sync_serializable_refuted    idle, every target connected and synchronised, and the proposal whose turn
+                                                  it is waits in APPLYING for ever: a SERIALIZABLE Set and a plain Set were
+                                                  committed before the device connected; the configuration event leads only to
+                                                  the second proposal (COMMITTED without apply phase behind the gate), which
+                                                  hands over to its successor, never to its predecessor (reproduced on the
+                                                  real controllers with their real watchers and queues by harness/cmd/c09)
+     C09_requeue_cycle_refuted                    the same situation with a third Set: every target connected, a transaction
+                                                  not final, and everything that is pending is a pair of proposals that,
+                                                  whatever the oracle, do nothing but re-queue each other: no delivery order
+                                                  ever empties the queue or changes the world (a livelock)
    The repaired shapes are regression Examples in Proofs/P2_QueueWitness.v (regression_dead_prev, _apply_failed,
-   _initfail_successor, _sync_wakeup, _two_changes_offline, _partial_apply_failure: complete histories of the scenarios
-   of F-02a, F-02b, F-02e and F-21 end idle, at a fixed point, every target connected, every transaction final).
+   _initfail_successor, _serializable_gate, _serializable_three, _sync_wakeup, _two_changes_offline,
+   _partial_apply_failure: complete histories of the scenarios of F-02a, F-02b, F-02d, F-02e and F-21 end idle, at a
+   fixed point, every target connected, every transaction final).
    What is proved for all pure layers, worlds, oracles and delivery orders:
      C09_queue_runs_are_runs      every queued run is a run of Model/Proto2.v (so every invariant proved about that
                                   model - C01 ... - holds in every queued world)
@@ -34,10 +38,11 @@
                                   from a pending id through re-queue results): all queues empty => no reconcile of any
                                   controller id has an effect, for any oracle.
                                   PARTIAL: [tokens] is a hypothesis, not a proved invariant.  The missing lemma is
-                                  "qstep preserves tokens for worlds without SERIALIZABLE transactions" (one case per
+                                  "qstep preserves tokens" for the model with the repair of F-C09-23 (one case per
                                   effect x waiting state; it needs the chain invariants prev/next/cursors of DESIGN 5.0).
                                   Evidence instead of proof: ocaml/c09_search.ml finds no idle state that is not a fixed
-                                  point in > 700 000 idle states without SERIALIZABLE transactions (run on every check
+                                  point in > 700 000 idle states without SERIALIZABLE transactions - and, with fixes/C09-4.patch modelled, none and
+                                  no livelock with them either (run on every check
                                   by props/c09_extra.py); tokens_satisfiable exhibits a non-trivial world.
      C09_terminates_partial       every write of the transaction controller and of the proposal controller to a
                                   transaction / proposal record strictly lowers the phase rank of that record
@@ -96,8 +101,8 @@ Section C09.
 End C09.
 
 (* the current code, executable instance *)
-Theorem C09_lost_wakeup_serializable_gate_refuted : lost_wakeup sig_serializable_gate.
-Proof. exact lost_wakeup_serializable_gate. Qed.
+Theorem C09_lost_wakeup_sync_serializable_refuted : lost_wakeup sig_apply_ready.
+Proof. exact lost_wakeup_sync_serializable. Qed.
 Theorem C09_requeue_cycle_refuted : livelock.
 Proof. exact livelock_behind_gate. Qed.
 
@@ -106,5 +111,5 @@ Print Assumptions C09_enabled_only_stored.
 Print Assumptions C09_fixpoint_partial.
 Print Assumptions C09_terminates_partial.
 Print Assumptions C09_rank_bounds.
-Print Assumptions C09_lost_wakeup_serializable_gate_refuted.
+Print Assumptions C09_lost_wakeup_sync_serializable_refuted.
 Print Assumptions C09_requeue_cycle_refuted.
